@@ -330,6 +330,29 @@ def sequential_part(cs, log, ctx, hyruns, managers):
                 raise Violation("invalid_call_accepted",
                                 f"get_batch{bad} returned {short(res)}",
                                 "sweep")
+    # (1b) SiteBatch: every site is found in the batch that holds it
+    with cs.span("sitesweep"):
+        ns = cs.weighted("ns", [(cs.between("ns.s", 1, 30), 3),
+                                (cs.between("ns.l", 31, 520), 1)])
+        nb = cs.between("nb", 1, min(ns, 12))
+        ids = [f"s{j:04d}" for j in range(ns)] if cs.flip("str", 50) \
+            else [1000 + 7 * j for j in range(ns)]
+        log.ev("sitesweep", ns, nb)
+        log.kind("sitesweep")
+        try:
+            sb = hyruns.SiteBatch(ids, nb)
+            lists = [sb[i] for i in range(nb)]
+            owners = [sb.search(x) for x in ids]
+        except Exception as e:
+            raise Violation("sitebatch_raised", f"SiteBatch({ns},{nb}) raised "
+                            f"{e!r}", "sitesweep")
+        for j, x in enumerate(ids):
+            want = [b for b in range(nb) if j in model_batch(ns, nb, b)][0]
+            if owners[j] != want or x not in plain(lists[want]):
+                raise Violation("sitebatch_search_wrong",
+                                f"SiteBatch({ns} sites, {nb} batches): site "
+                                f"#{j} is in batch {want}, search says "
+                                f"{owners[j]}", "sitesweep")
     # (2) dictionary / JSON round-trips under the current key names
     for idx, (opm, mm) in enumerate(managers):
         with cs.span("roundtrip"):
@@ -661,7 +684,11 @@ def run(cs, log, ctx):
                 n = len(m.tasks)
                 # ---- batch
                 try:
-                    ids = hyruns.get_batch(opm.ntasks, nbatch, i)
+                    if i % 2:
+                        ids = hyruns.get_batch(nelements=opm.ntasks,
+                                               ibatch=i, nbatch=nbatch)
+                    else:
+                        ids = hyruns.get_batch(opm.ntasks, nbatch, i)
                 except ValueError as e:
                     if n < nbatch or i < 0 or i >= nbatch:
                         ctx.hit("fault.rejected_get_batch")
@@ -708,7 +735,8 @@ def run(cs, log, ctx):
                 check_tasks_and_find(cs, opm, m, f"worker {i} manager",
                                      "batch", f"w{i}")
                 # ---- sites
-                sb = hyruns.SiteBatch(list(sites), nbatch)
+                sb = hyruns.SiteBatch(list(sites), nbatch) if i % 2 else \
+                    hyruns.SiteBatch(nbatch=nbatch, siteids=list(sites))
                 try:
                     mine = sb[i]
                 except ValueError:
